@@ -27,6 +27,9 @@ type c07Case struct {
 	// Siblings are further files of the same directory that are named on the
 	// same command line in the modes that write files.
 	Siblings []c07Sibling `json:"siblings,omitempty"`
+	// DirArg: the file is reached through a directory argument ("." or
+	// "./...") instead of being named.
+	DirArg string `json:"dir_arg,omitempty"`
 }
 
 type c07Sibling struct {
@@ -326,8 +329,12 @@ func evalC07(cs *c07Case) (sig, msg string, hit bool, judged bool) {
 		_ = os.WriteFile(filepath.Join(dir, "p.patch"), []byte(cs.Patch), 0o644)
 		_ = os.WriteFile(target, []byte(cs.File), 0o644)
 		args := append([]string{"-p", "p.patch"}, mode.Args...)
-		args = append(args, cs.name())
-		multi := strings.HasPrefix(mode.Name, "inplace") && len(cs.Siblings) > 0
+		if cs.DirArg != "" {
+			args = append(args, cs.DirArg)
+		} else {
+			args = append(args, cs.name())
+		}
+		multi := strings.HasPrefix(mode.Name, "inplace") && len(cs.Siblings) > 0 && cs.DirArg == ""
 		if multi {
 			for _, sb := range cs.Siblings {
 				_ = os.WriteFile(filepath.Join(dir, sb.Name), []byte(sb.Src), 0o644)
@@ -507,6 +514,10 @@ func TestC07(t *testing.T) {
 				cs.Siblings = append(cs.Siblings, c07Sibling{Name: fmt.Sprintf("g%d.go", i), Src: src})
 			}
 			cs.Family += "+multi"
+		}
+		if len(cs.Siblings) == 0 && rapid.IntRange(0, 3).Draw(rt, "dirArg") == 0 {
+			cs.DirArg = rapid.SampledFrom([]string{".", "./...", "./"}).Draw(rt, "dirArgForm")
+			cs.Family += "+dir-arg"
 		}
 		sig, msg, hit, judged := evalC07(cs)
 		if !judged {
